@@ -28,6 +28,8 @@ pub enum Ev {
     Ack(u8, bool, bool),
     /// broker-initiated packet number i of cfg.inbound
     Inbound(u8),
+    /// broker-initiated packets i and j of cfg.inbound arrive in one read
+    InboundPair(u8, u8),
     ServerDisconnect,
     /// entry i of the hostile menu (see `hostile_menu`)
     Hostile(u8),
@@ -60,6 +62,7 @@ impl Ev {
             "Connack" => Ev::Connack(boolean(0)?, num(1)? as u8),
             "Ack" => Ev::Ack(num(0)? as u8, boolean(1)?, boolean(2)?),
             "Inbound" => Ev::Inbound(num(0)? as u8),
+            "InboundPair" => Ev::InboundPair(num(0)? as u8, num(1)? as u8),
             "ServerDisconnect" => Ev::ServerDisconnect,
             "Hostile" => Ev::Hostile(num(0)? as u8),
             "TickNext" => Ev::TickNext,
@@ -409,6 +412,7 @@ impl World {
             Ev::Connack(session, variant) => self.ev_connack(*session, *variant),
             Ev::Ack(idx, fail, split) => self.ev_ack(*idx as usize, *fail, *split),
             Ev::Inbound(i) => self.ev_inbound(*i as usize),
+            Ev::InboundPair(i, j) => self.ev_inbound_pair(*i as usize, *j as usize),
             Ev::ServerDisconnect => self.ev_server_disconnect(),
             Ev::Hostile(i) => self.ev_hostile(*i as usize),
             Ev::TickNext | Ev::TickBefore | Ev::TickPast(_) | Ev::TickIdle(_) if { if !self.outbuf.is_empty() { if let Some(c) = self.conn.as_mut() { c.write_stalled = true; } } false } => {}
